@@ -343,6 +343,10 @@ class Interp:
 
     def _mkstr_ite(self, parts):
         """Concatenate text parts; an alternative (IteV) part distributes over the whole string."""
+        n_alt = sum(1 for p in parts if isinstance(p, IteV))
+        if n_alt > 1 or any(isinstance(p, IteV) and isinstance(p.a, IteV) or isinstance(p, IteV) and isinstance(p.b, IteV)
+                            for p in parts):
+            return mkstr([p if not isinstance(p, IteV) else SegStr([OpaqueHole('alternative')]) for p in parts])
         for i, p in enumerate(parts):
             if isinstance(p, IteV):
                 a = self._mkstr_ite(parts[:i] + [p.a] + parts[i + 1:])
@@ -395,7 +399,42 @@ class Interp:
             if is_symbool(a) or is_symbool(b) or (isinstance(a, bool) and isinstance(b, bool)):
                 return z3.If(c, boolz(a), boolz(b))
             return IteV(c, a, b)
+        merged = self._try_merge_ifexp(e, c, env)
+        if merged is not NotImplemented:
+            return merged
         return self.ev(e.body if self.decide(c, f"ifexp@{e.lineno}") else e.orelse, env)
+
+    def _try_merge_ifexp(self, e, c, env):
+        """`a if c else b` with pure arms: evaluate each arm under its condition (no recorded forks) and merge."""
+        from . import loops
+        c = z3.simplify(c)
+        t, f = self.feasible(c), self.feasible(z3.Not(c))
+        if not (t and f):
+            return NotImplemented
+        outs = []
+        nw = len(self.writes)
+        for cond, arm in ((c, e.body), (z3.Not(c), e.orelse)):
+            self.solver.push()
+            nh = len(self.hyps)
+            no = len(self.obls)
+            self.pure += 1
+            try:
+                self.assume(cond)
+                outs.append(self.ev(arm, env))
+            except (MergeAbort, Raised, Unsupported):
+                del self.obls[no:]
+                return NotImplemented
+            finally:
+                self.pure -= 1
+                del self.hyps[nh:]
+                del self.hyp_tags[nh:]
+                self.solver.pop()
+        if len(self.writes) != nw:
+            return NotImplemented
+        try:
+            return loops.merge_values(c, outs[0], outs[1])
+        except MergeAbort:
+            return NotImplemented
 
     def _simple_arm(self, n):
         if isinstance(n, ast.Constant):
@@ -458,6 +497,9 @@ class Interp:
                 return a + b
             if isinstance(a, Opaque) or isinstance(b, Opaque):
                 return Opaque('concat')
+            if (isinstance(a, IteV) and isinstance(b, (str, SegStr, IteV))) or \
+                    (isinstance(b, IteV) and isinstance(a, (str, SegStr))):
+                return SegStr([OpaqueHole('text with alternatives')])
         if isinstance(op, ast.Mult):
             if isinstance(a, (list, str, tuple)) and isinstance(b, int):
                 return a * b
